@@ -246,7 +246,10 @@ func (r *PhaseReconciler) teardownPhaseObject(
 
 	// Preflight checker during teardown prevents the deletion of resources in different namespaces and
 	// unblocks teardown when APIs have been removed.
-	if v, err := r.preflightChecker.Check(ctx, owner.ClientObject(), desiredObj); err != nil {
+	// It must not skip objects just because their desired state is no longer accepted by the API server,
+	// those objects still have to be deleted.
+	if v, err := r.preflightChecker.Check(
+		preflight.NewContextForTeardown(ctx), owner.ClientObject(), desiredObj); err != nil {
 		return false, fmt.Errorf("running preflight validation: %w", err)
 	} else if len(v) > 0 {
 		return true, nil
